@@ -209,9 +209,25 @@ func stats(c *hx.Ctx, d *ldoc) {
 	if len(d.Header)+len(d.Footer) > 0 {
 		c.Count(d.Format + "-header/footer")
 	}
+	if d.Fam != nil {
+		c.Count(d.Format + "-style-family")
+	}
+	used := map[string]int{} // family styles used so far in document order (body and cells)
 	seenMulti := false
 	for _, bl := range d.Blocks {
 		if bl.T != nil {
+			for a := 0; a < bl.T.R; a++ {
+				for b := 0; b < bl.T.C; b++ {
+					if cell := bl.T.Cells[[2]int{a, b}]; cell != nil {
+						for i := range cell.Paras {
+							if id := cell.Paras[i].Fam; id != "" {
+								used[id]++
+								c.Count(d.Format + "-cell-paragraph-in-family-style")
+							}
+						}
+					}
+				}
+			}
 			c.Count(d.Format + "-table")
 			if seenMulti {
 				c.Count(d.Format + "-table-after-multipara-table")
@@ -232,6 +248,34 @@ func stats(c *hx.Ctx, d *ldoc) {
 		c.Count(d.Format + "-" + bl.P.Kind)
 		if bl.P.Kind == "h" {
 			c.Count(d.Format + "-heading-via-" + bl.P.Via)
+		}
+		if d.Fam != nil && bl.P.Kind == "h" {
+			id := bl.P.Fam
+			if id == "" {
+				id = rootStyleID(d.Format, bl.P.Via, bl.P.Level)
+			}
+			if fs := d.Fam.get(id); fs != nil {
+				if fs.Via == "family" {
+					kind := "inheriting"
+					if d.Fam.overrides(id) {
+						kind = "overriding"
+					}
+					c.Count(fmt.Sprintf("%s-family-heading-%s-depth%d", d.Format, kind, fs.Depth))
+					anc := false
+					for _, a := range d.Fam.ancestors(id) {
+						anc = anc || used[a] > 0
+					}
+					switch {
+					case used[id] > 0:
+						c.Count(d.Format + "-family-" + kind + "-style-used-again")
+					case anc:
+						c.Count(d.Format + "-family-" + kind + "-style-after-an-ancestor-style")
+					default:
+						c.Count(d.Format + "-family-" + kind + "-style-before-its-ancestors")
+					}
+				}
+				used[id]++
+			}
 		}
 		for _, ru := range bl.P.Runs {
 			if ru.Wrap != "" {
@@ -385,7 +429,8 @@ func init() { hx.Register("C16", Run, Replay) }
 
 func Run(c *hx.Ctx) {
 	c.Rep.Rule = "random logical documents (1..12 blocks: paragraphs with 1..4 runs/spans of mixed inline content incl. hyperlink/ins/sdt wrappers, " +
-		"headings via built-in/custom/inherited/name/outline/cyclic styles, multi-level lists, tables with multi-paragraph cells, merges and nested tables, " +
+		"headings via built-in/custom/inherited/name/outline/cyclic styles, in a third of the styled documents a style family (1-2 root heading styles, 2-5 custom styles derived from them 1-3 deep, " +
+		"each inheriting or overriding the level with an outline level of its own) whose styles are used by headings and table-cell paragraphs in random order and repetition, multi-level lists, tables with multi-paragraph cells, merges and nested tables, " +
 		"optional styles/numbering/header/footer/meta parts, shuffled part order), every text piece a unique token, rendered by the harness's own DOCX and ODT writers " +
 		"(even index = DOCX, odd = ODT); plus fixed witnesses of the quoted defects and a stream of damaged packages; non-trivial = Document() has at least one element"
 	for wi := range witnessDocs() {
